@@ -343,12 +343,55 @@ func (act *activation) branch(b *ssa.BasicBlock, a *alt, ins *ssa.If, edgeOut ma
 	e := act.e
 	c := act.val(a, ins.Cond)
 	pos, neg := e.atomsOf(c)
+	// an error forwarded through wrappers: the outcome applies to every call
+	// recorded as returning that error (errvia)
+	{
+		ct := c
+		if e.T.Op(ct) == "not" {
+			ct = e.T.Args(ct)[0]
+		}
+		for _, at := range a.atoms {
+			tm := e.T.Get(at)
+			if tm.Op == "boolvia" && tm.Args[1] == ct {
+				tA, fA := e.T.Mk("T", tm.Args[0]), e.T.Mk("F", tm.Args[0])
+				if e.T.Op(c) == "not" {
+					pos, neg = append(pos, fA), append(neg, tA)
+				} else {
+					pos, neg = append(pos, tA), append(neg, fA)
+				}
+			}
+		}
+		if e.T.Op(ct) == "errnil" {
+			x := e.T.Args(ct)[0]
+			for _, at := range a.atoms {
+				tm := e.T.Get(at)
+				if tm.Op == "errvia" && tm.Args[1] == x {
+					okA, failA := e.T.Mk("ok", tm.Args[0]), e.T.Mk("fail", tm.Args[0])
+					if e.T.Op(c) == "not" {
+						pos, neg = append(pos, failA), append(neg, okA)
+					} else {
+						pos, neg = append(pos, okA), append(neg, failA)
+					}
+				}
+			}
+		}
+	}
 	tEdge := edge{b.Index, b.Succs[0].Index}
 	fEdge := edge{b.Index, b.Succs[1].Index}
 	switch e.decide(a, c) {
 	case 1:
+		if c != e.trueT {
+			for _, p := range pos {
+				a.atoms = a.atoms.Add(p)
+			}
+		}
 		edgeOut[tEdge] = append(edgeOut[tEdge], a)
 	case -1:
+		if c != e.falseT {
+			for _, n := range neg {
+				a.atoms = a.atoms.Add(n)
+			}
+		}
 		edgeOut[fEdge] = append(edgeOut[fEdge], a)
 	default:
 		f := a.clone()
@@ -469,6 +512,24 @@ func (e *Engine) decide(a *alt, c term.ID) int {
 			return -1
 		}
 		return 0
+	}
+	if tm.Op == "call:errors.Is" && len(tm.Args) == 2 {
+		// the root of a wrapped sentinel decides errors.Is against a sentinel
+		x := tm.Args[0]
+		for {
+			xt := T.Get(x)
+			if (xt.Op == "call:errorsmod.Wrap" || xt.Op == "call:errorsmod.Wrapf") && len(xt.Args) > 0 {
+				x = xt.Args[0]
+				continue
+			}
+			break
+		}
+		if strings.HasPrefix(T.Op(x), "gv:") && strings.HasPrefix(T.Op(tm.Args[1]), "gv:") {
+			if x == tm.Args[1] {
+				return 1
+			}
+			return -1
+		}
 	}
 	if a.atoms.Has(T.Mk("T", c)) {
 		return 1
